@@ -38,6 +38,8 @@ type solverProc struct {
 	errors  []string
 	elapsed time.Duration
 	log     io.Writer // optional transcript
+	pend    []byte    // text not yet written to the solver
+	frames  []int     // offsets in pend of the "(push 1)" commands still queued
 }
 
 // SolverSpec names a solver binary and its arguments.
@@ -74,16 +76,42 @@ func startSolver(spec SolverSpec, timeoutMs int) (*solverProc, error) {
 		s.send("(set-logic QF_BV)\n")
 	}
 	s.send("(set-option :produce-models true)\n")
+	s.flush()
 	return s, nil
 }
 
+// send queues text for the solver.  Nothing is written to the pipe until an
+// answer is needed (flush, called by checkSat and getValues): a path whose
+// decisions are all settled without the solver sends nothing at all, because a
+// "(pop 1)" that meets its own still-queued "(push 1)" cancels the whole scope.
 func (s *solverProc) send(text string) {
-	if s.log != nil {
-		io.WriteString(s.log, text)
+	switch text {
+	case "(push 1)\n":
+		s.frames = append(s.frames, len(s.pend))
+	case "(pop 1)\n":
+		if n := len(s.frames); n > 0 {
+			s.pend = s.pend[:s.frames[n-1]]
+			s.frames = s.frames[:n-1]
+			return
+		}
 	}
-	if _, err := io.WriteString(s.in, text); err != nil {
+	s.pend = append(s.pend, text...)
+}
+
+// flush writes the queued text to the solver.
+func (s *solverProc) flush() {
+	if len(s.pend) == 0 {
+		s.frames = s.frames[:0]
+		return
+	}
+	if s.log != nil {
+		s.log.Write(s.pend)
+	}
+	if _, err := s.in.Write(s.pend); err != nil {
 		s.errors = append(s.errors, "write: "+err.Error())
 	}
+	s.pend = s.pend[:0]
+	s.frames = s.frames[:0]
 }
 
 func (s *solverProc) close() {
@@ -106,6 +134,7 @@ func (s *solverProc) checkSat() satResult {
 	start := time.Now()
 	s.queries++
 	s.send("(check-sat)\n")
+	s.flush()
 	res := resUnknown
 	sawErr := false
 	for {
@@ -164,6 +193,7 @@ func (s *solverProc) getValues(names []string) (model, error) {
 	start := time.Now()
 	defer func() { s.elapsed += time.Since(start) }()
 	s.send("(get-value (" + strings.Join(names, " ") + "))\n")
+	s.flush()
 	// Response: ((a #x01) (b true) ...), possibly over several lines.
 	var sb strings.Builder
 	depth := 0
